@@ -37,8 +37,22 @@ Theorem C10_deadlock_free :
 Proof. exact deadlock_free. Qed.
 Print Assumptions C10_deadlock_free.
 
-(** no data race, except a leaf-handle operation against Delete *)
+(** [patched_op]: the program uses the Delete of the current code (repo commit
+    3480f62: the write lock of every visited node), not [CDeleteUnlocked] *)
+
+(** no data race, unconditionally: no two threads ever stand at conflicting
+    content accesses -- leaf/node-handle operations against Delete included *)
 Theorem C10_no_data_race :
+  forall ops s i j ti tj,
+    forallb patched_op ops = true -> reach ops s -> i <> j ->
+    nth_error (thr s) i = Some ti -> nth_error (thr s) j = Some tj ->
+    race_between (hp s) ti tj = false.
+Proof. exact no_data_race_patched. Qed.
+Print Assumptions C10_no_data_race.
+
+(** for programs that may also contain the pre-3480f62 Delete: the only
+    possible race is a handle operation against that Delete's critical section *)
+Theorem C10_no_data_race_any_variant :
   forall ops s i j ti tj,
     reach ops s -> i <> j ->
     nth_error (thr s) i = Some ti -> nth_error (thr s) j = Some tj ->
@@ -46,9 +60,10 @@ Theorem C10_no_data_race :
     (is_handle_pc (tpc ti) = true /\ exists q, tpc tj = PDelCrit q) \/
     (is_handle_pc (tpc tj) = true /\ exists q, tpc ti = PDelCrit q).
 Proof. exact no_data_race. Qed.
-Print Assumptions C10_no_data_race.
+Print Assumptions C10_no_data_race_any_variant.
 
-(** ... and that exception happens (known finding KF-C10-1, DESIGN 7.17) *)
+(** regression witness for defect C10_1 (fixed by 3480f62): with the old Delete
+    ([CDeleteUnlocked]) a handle update races with Delete's critical section *)
 Theorem C10_handle_delete_race_refuted :
   exists ops s i j ti tj,
     reach ops s /\ i <> j /\
@@ -58,15 +73,26 @@ Theorem C10_handle_delete_race_refuted :
 Proof. exact handle_delete_race_refuted. Qed.
 Print Assumptions C10_handle_delete_race_refuted.
 
-(** a Delete in its critical section excludes every other tree operation *)
+(** a Delete that has entered the tree (it holds the root write lock from its
+    first to its last critical section) excludes every other tree operation *)
 Theorem C10_delete_atomic :
-  forall ops s i j ti tj q,
+  forall ops s i j ti tj,
     reach ops s -> i <> j ->
     nth_error (thr s) i = Some ti -> nth_error (thr s) j = Some tj ->
-    tpc ti = PDelCrit q ->
+    in_delete (tpc ti) = true ->
     (is_handle_pc (tpc tj) = false -> held tj = []) /\ (forall m, ~ In (0%nat, m) (held tj)).
-Proof. exact delete_atomic. Qed.
+Proof. exact delete_atomic_patched. Qed.
 Print Assumptions C10_delete_atomic.
+
+(** more generally, whoever holds the root's write lock excludes them *)
+Theorem C10_root_writer_excludes :
+  forall ops s i j ti tj,
+    reach ops s -> i <> j ->
+    nth_error (thr s) i = Some ti -> nth_error (thr s) j = Some tj ->
+    In (0%nat, MW) (held ti) ->
+    (is_handle_pc (tpc tj) = false -> held tj = []) /\ (forall m, ~ In (0%nat, m) (held tj)).
+Proof. exact root_writer_excludes. Qed.
+Print Assumptions C10_root_writer_excludes.
 
 (** the re-check after the reader->writer exchange: no step replaces or drops
     an existing child *)
